@@ -14,6 +14,30 @@ from replay_C08 import build, num     # concrete pre-state builder (shared with 
 RTOL = 1e-9     # floats here; the solver's counterexamples are far outside this
 
 
+def fixed(name):
+    """documented meaning of a block name typed the TOUGH2 way: a blank in the 4th column between two digits is a zero."""
+    if len(name) == 5 and name[2] in '0123456789' and name[4] in '0123456789' and name[3] == ' ':
+        return name[:3] + '0' + name[4]
+    return name
+
+
+def list_clauses(g, objs_b, objs_c):
+    """every block / connection object that was listed before is listed exactly once afterwards; totals of the
+    listed volumes / areas (exact sums of the stored floats: only membership can change them here)."""
+    bad = {}
+    if sorted(id(b) for b in g.blocklist) != sorted(id(b) for b in objs_b):
+        bad['blocks-not-all-listed'] = '%d blocks listed, %d before; no longer listed: %r' % (
+            len(g.blocklist), len(objs_b), [b.name for b in objs_b if not any(b is x for x in g.blocklist)])
+    if sorted(id(x) for x in g.connectionlist) != sorted(id(x) for x in objs_c):
+        bad['connections-not-all-listed'] = '%d connections listed, %d before' % (len(g.connectionlist), len(objs_c))
+    tot = lambda xs: sum((Fraction(x) for x in xs), Fraction(0))
+    vol0, vol1 = tot(b.volume for b in objs_b), tot(b.volume for b in g.blocklist)
+    area0, area1 = tot(x.area for x in objs_c), tot(x.area for x in g.connectionlist)
+    if vol1 != vol0: bad['listed-volume'] = 'total volume of the listed blocks %r, before %r' % (float(vol1), float(vol0))
+    if area1 != area0: bad['listed-area'] = 'total area of the listed connections %r, before %r' % (float(area1), float(area0))
+    return bad
+
+
 def describe(g):
     """name-based physical description of what a data file would contain."""
     blocks = {}
@@ -66,26 +90,47 @@ def replay(d):
                                              [float(num(x)) for x in a['dz']], atmos_type=a['atmos_type'])
         g = T.t2grid().fromgeo(geo)
         b0, c0 = describe(g)
+        objs_b, objs_c = list(g.blocklist), list(g.connectionlist)
         bn = [b.name for b in g.blocklist][::-1]
-        cn = [tuple(b.name for b in con.block)[::-1] for con in g.connectionlist]
-        g.reorder(bn, cn)
+        exc = None
+        if a.get('how', 'explicit') == 'explicit':
+            cn = [tuple(b.name for b in con.block)[::-1] for con in g.connectionlist]
+            g.reorder(bn, cn)
+            want_b, want_c = bn, cn
+            head = 'fromgeo(rectangular %r) then reorder with all connections reversed' % (a,)
+        else:
+            cn = [tuple(b.name for b in con.block) for con in g.connectionlist][::-1]
+            if a['scramble'] == 'rev-all': cn = [t[::-1] for t in cn]
+            elif a['scramble'] == 'rev-alt': cn = [t[::-1] if q % 2 == 0 else t for q, t in enumerate(cn)]
+            if a['scramble'] != 'none': g.reorder(bn, cn)
+            try: g.reorder(geo=geo)
+            except Exception as ex: exc = '%s: %s' % (type(ex).__name__, ex)
+            want_b, want_c = list(geo.block_name_list), [tuple(t) for t in geo.block_connection_name_list]
+            head = 'fromgeo(rectangular %r), scrambled (%s), then reorder(geo = geo)' % (a, a['scramble'])
         b1, c1 = describe(g)
         bad = cmp_connections(c0, c1)
+        if exc: bad['raised'] = 'raised ' + exc
         if b0 != b1: bad['block-data'] = 'block data changed'
-        if clause in bad: return True, 'fromgeo(rectangular %r) then reorder with all connections reversed: %s' % (a, bad[clause])
-        return False, 'clause %r holds (violated: %r)' % (clause, bad)
+        listed = [b.name for b in g.blocklist]
+        if listed != want_b: bad['block-order'] = 'block list %r, expected %r' % (listed, want_b)
+        clisted = [tuple(b.name for b in x.block) for x in g.connectionlist]
+        if clisted != want_c: bad['connection-order'] = 'connection list %r, expected %r' % (clisted, want_c)
+        bad.update(list_clauses(g, objs_b, objs_c))
+        if clause in bad: return True, '%s: %s' % (head, bad[clause])
+        return False, '%s: clause %r holds (violated: %r)' % (head, clause, bad)
     pre = d['pre']
     g, blocks, rocks, cons = build(T, pre)
     b0, c0 = describe(g)
     names = pre['bnames']
     if op == 'reorder':
-        bn = [names[i] for i in a['perm']]
+        give_b, give_c = a['perm'] is not None, a['cons'] is not None       # a list that is not given must stay as it is
+        bn = [names[i] for i in (a['perm'] if give_b else range(len(names)))]
         cn = []
-        for k, rev in a['cons']:
+        for k, rev in (a['cons'] if give_c else [[k, 0] for k in range(len(cons))]):
             i, j = pre['shape']['cons'][k]
             cn.append((names[j], names[i]) if rev else (names[i], names[j]))
         exc = None
-        try: g.reorder(bn, cn if cn else None)
+        try: g.reorder(bn if give_b else None, (cn if cn else None) if give_c else None)
         except Exception as ex: exc = '%s: %s' % (type(ex).__name__, ex)
         b1, c1 = describe(g)
         bad = cmp_connections(c0, c1)
@@ -94,12 +139,22 @@ def replay(d):
         if [b.name for b in g.blocklist] != bn: bad['block-order'] = 'block order %r, requested %r' % ([b.name for b in g.blocklist], bn)
         if cn and [tuple(b.name for b in c.block) for c in g.connectionlist] != cn:
             bad['connection-order'] = bad['orientation-not-honoured'] = 'connection list %r, requested %r' % (g.connectionlist, cn)
-        head = 'reorder(%r, %r) on connections %r' % (bn, cn, [(names[i], names[j]) for i, j in pre['shape']['cons']])
+        bad.update(list_clauses(g, blocks, cons))
+        head = 'reorder(%r, %r) on connections %r' % (bn if give_b else None, cn if give_c else None, [(names[i], names[j]) for i, j in pre['shape']['cons']])
     elif op == 'rename_blocks':
-        mp = dict((k, v) for k, v in a['map'])
+        given = dict((k, v) for k, v in a['map'])
+        # the map that is to be APPLIED: with fix_blocknames every name in it stands for its fixed form
+        fx = fixed if a['fix'] else (lambda n: n)
+        mp = dict((fx(k), fx(v)) for k, v in a['map'])
         exc = None
         try:
-            g.rename_blocks(dict(mp), fix_blocknames=a['fix'])
+            if a.get('via') == 't2data':
+                import t2data as D
+                dat = D.t2data(); dat.grid = g
+                handed = dict((v, k) for k, v in a['map']) if a.get('invert') else dict(given)
+                dat.rename_blocks(handed, invert=bool(a.get('invert')), fix_blocknames=a['fix'])
+            else:
+                g.rename_blocks(dict(given), fix_blocknames=a['fix'])
             if a.get('then_reorder'):
                 g.reorder([b.name for b in blocks][::-1], [tuple(b.name for b in c.block)[::-1] for c in cons][::-1] or None)
         except Exception as ex: exc = '%s: %s' % (type(ex).__name__, ex)
@@ -115,7 +170,10 @@ def replay(d):
         exp = {}
         for n, v in b0.items(): exp.setdefault(mp.get(n, n), []).extend(v)
         if exp != b1: bad['block-data'] = bad['block-name'] = 'blocks expected %r, found %r' % (exp, b1)
-        head = 'rename_blocks(%r) on %r' % (mp, names)
+        bad.update(list_clauses(g, blocks, cons))
+        head = '%srename_blocks(%r%s%s) on %r' % ('t2data.' if a.get('via') == 't2data' else '', given,
+                                                  ', fix_blocknames=True' if a['fix'] else '',
+                                                  ' [handed over inverted, invert=True]' if a.get('invert') else '', names)
     elif op == 'minc':
         fr = [Fraction(x) for x in a['fractions']]; tot = sum(fr); q = [float(x / tot) for x in fr]
         vol0 = [b.volume for b in blocks]
